@@ -20,6 +20,7 @@ type c11Case struct {
 	AppendSNP bool    `json:"append_snps"`
 	Start     int     `json:"start"`
 	End       int     `json:"end"`
+	PairWrap  int     `json:"pair_wrap"` // --wrap given to sam toPairAlign when writing the intermediate files (<=0: off)
 }
 
 func checkC11(c c11Case, o *Obs) error {
@@ -28,6 +29,7 @@ func checkC11(c c11Case, o *Obs) error {
 	o.LabelIf(c.AppendSNP, "append-snps")
 	o.LabelIf(c.Start > 0 || c.End > 0, "window")
 	o.LabelIf(!vc.RefFromFile, "reference-from-annotation")
+	o.LabelIf(c.PairWrap > 0, "pair-files-wrapped")
 	run := varRunOpts{Start: c.Start, End: c.End, AppendSNP: c.AppendSNP}
 	samOut, err := runVariants(vc, run)
 	if err != nil {
@@ -49,7 +51,7 @@ func checkC11(c c11Case, o *Obs) error {
 	defer os.RemoveAll(dir)
 	samTxt, refTxt := vc.Sam.render(), vc.Sam.refFasta()
 	if err := mustRun("sam.ToPairAlign", func() error {
-		return sam.ToPairAlign(strings.NewReader(samTxt), strings.NewReader(refTxt), filepath.Join(dir, "pairs"), -1, -1, -1, false, false, 1)
+		return sam.ToPairAlign(strings.NewReader(samTxt), strings.NewReader(refTxt), filepath.Join(dir, "pairs"), c.PairWrap, -1, -1, false, false, 1)
 	}); err != nil {
 		return err
 	}
@@ -134,6 +136,10 @@ func genC11(t *rapid.T) c11Case {
 	c.Var = vc
 	c.AppendSNP = rapid.Bool().Draw(t, "appendSNP")
 	c.Start, c.End = genWindow(t, len(vc.Anno.Ref))
+	c.PairWrap = -1
+	if rapid.IntRange(0, 2).Draw(t, "pairWrapOn") == 0 {
+		c.PairWrap = rapid.IntRange(1, len(vc.Anno.Ref)+5).Draw(t, "pairWrap")
+	}
 	return c
 }
 
